@@ -878,6 +878,10 @@ func (ta *tokAnalysis) run(fn *ssa.Function, in tokPair, depth int) []tokPair {
 					key := funcName(fn) + ":return"
 					if st.s == tkH {
 						note(key, ta.c.pos(x.Pos()), "returns while still holding the token (leak: no later writer can begin)", true)
+					} else if st.s == tkO && depth == 0 && ta.curEntry != "Engine.Begin" {
+						// Commit and Abort end the transaction: once the caller is established as the owner of the active
+						// transaction, every way out has cleared e.txn and released the token
+						note(key+" as owner", ta.c.pos(x.Pos()), ta.curEntry+" returns with the caller's transaction still registered and the writer token not released: a caller that does not abort afterwards (session commit, the expiry pass) keeps the writer slot for ever", true)
 					} else {
 						note(key, ta.c.pos(x.Pos()), "returns in state "+st.s.String(), false)
 					}
